@@ -303,6 +303,18 @@ class C09(Prop):
                        "get_breeze_state": "SwitcherThermostatStateResponse"}[name]
                 if type(rec.value).__name__ != cls:
                     acc.violation(f"state-query-wrong-return:{name}", f"{tag}: returned {type(rec.value).__name__}", {})
+                else:
+                    # "returns a parsed response": every field of it can be read, compared and shown
+                    import dataclasses as _dc
+
+                    try:
+                        for f_ in _dc.fields(rec.value):
+                            getattr(rec.value, f_.name)
+                        repr(rec.value)
+                        rec.value == rec.value
+                    except Exception as exc2:
+                        acc.violation(f"state-query-returned-unusable-response:{name}", f"{tag}: the query returned a {cls}, reading it raised {type(exc2).__name__}: {exc2}",
+                                      {"reply": inj if isinstance(inj, str) else inj.hex()[:400]})
         # 2. success flag of whatever response object came back
         if rec.outcome == "return" and hasattr(rec.value, "successful") and hasattr(rec.value, "unparsed_response"):
             sent = [s for s in cl.conn.sent]
